@@ -543,9 +543,9 @@ var nilUseJustified = map[string]string{
 	// lock (C04.S2), which READDIRPLUS holds, so an entry it reads names a live inode.  ".." could name a freed
 	// parent only if the parent's count reached 0 while the child exists; known finding D5b errs in the other
 	// direction (the old parent is never freed).
-	"nfs.Ls3$1|field Gen":          "entry of a locked directory names a live inode (C04.S2)",
-	"nfs.Ls3$1|field Inum":         "entry of a locked directory names a live inode (C04.S2)",
-	"nfs.Ls3$1|passed to MkFattr": "entry of a locked directory names a live inode (C04.S2)",
+	"nfs.Ls3|field Gen":          "entry of a locked directory names a live inode (C04.S2)",
+	"nfs.Ls3|field Inum":         "entry of a locked directory names a live inode (C04.S2)",
+	"nfs.Ls3|passed to MkFattr": "entry of a locked directory names a live inode (C04.S2)",
 }
 
 func ruleNilUse(c *Ctx, id string) {
@@ -555,7 +555,8 @@ func ruleNilUse(c *Ctx, id string) {
 	seen := map[string]bool{}
 	n := 0
 	for _, e := range sortedEvents(t, "niluse") {
-		key := fmt.Sprintf("%s|%s", FuncName(e.Fn), e.Detail)
+		// keyed by the function the closure / private helper belongs to
+		key := fmt.Sprintf("%s|%s", FuncName(ownerOf(e.Fn)), e.Detail)
 		if seen[key] {
 			continue
 		}
